@@ -64,11 +64,28 @@ type c10Sub struct {
 	initial     bool
 	level       int
 	placeholder bool
+	node        *c10Node
 }
 
 type c10Pub struct {
-	op  *Op
-	val int
+	op   *Op
+	val  int
+	node *c10Node // the publisher the value was published INTO
+}
+
+// c10Node: a publisher in the Map tree (the origin has depth 0, p.Map(fn) depth 1, ...)
+type c10Node struct {
+	parent *c10Node
+	depth  int
+}
+
+func (n *c10Node) under(x *c10Node) bool {
+	for ; n != nil; n = n.parent {
+		if n == x {
+			return true
+		}
+	}
+	return false
 }
 
 type c10Deliv struct {
@@ -109,7 +126,13 @@ func genC10(t *simrt.Tape, tier string) Scenario {
 		n := 1 + t.Choose(maxOps)
 		var ops []c10Op
 		for k := 0; k < n; k++ {
-			switch t.ChooseW([]int{10, 2, 4, 1}) {
+			switch t.ChooseW([]int{10, 2, 4, 1, 1}) {
+			case 4:
+				if sc.Map {
+					ops = append(ops, c10Op{Kind: "PublishMid"})
+				} else {
+					ops = append(ops, c10Op{Kind: "Publish"})
+				}
 			case 3:
 				// derive a mapped publisher from the shared origin at run time and subscribe to it
 				ops = append(ops, c10Op{Kind: "Map"})
@@ -154,10 +177,12 @@ func (sc *c10Scenario) Run(s *simrt.Sim) {
 		hd.Post(func() { sc.hTID = s.Self().ID; got = true })
 		s.WaitUntilTimeout(func() bool { return got }, time.Minute)
 	}
+	root := &c10Node{}
+	nodeOf := map[*fpgo.PublisherDef[int]]*c10Node{p: root}
 	var unsubscribe func(name string, target *c10Sub)
 	var newSub func(name string, pub *fpgo.PublisherDef[int], derived bool, action string, target int) *c10Sub
 	newSub = func(name string, pub *fpgo.PublisherDef[int], derived bool, action string, target int) *c10Sub {
-		cs := &c10Sub{id: len(sc.subs), derived: derived, action: action, target: target}
+		cs := &c10Sub{id: len(sc.subs), derived: derived, action: action, target: target, node: nodeOf[pub]}
 		sc.subs = append(sc.subs, cs)
 		if action == "placeholder" {
 			// a registered subscription without a callback: gets nothing, disturbs nobody
@@ -190,7 +215,7 @@ func (sc *c10Scenario) Run(s *simrt.Sim) {
 					sc.nestedVal++
 					nv := 500000 + sc.nestedVal
 					po := h.Do(cb, "Publish", nv, func() (interface{}, error) { p.Publish(nv); return nil, nil })
-					sc.pubs = append(sc.pubs, &c10Pub{op: po, val: nv})
+					sc.pubs = append(sc.pubs, &c10Pub{op: po, val: nv, node: root})
 				}
 			}})
 			return nil, nil
@@ -211,12 +236,14 @@ func (sc *c10Scenario) Run(s *simrt.Sim) {
 	var m *fpgo.PublisherDef[int]
 	if sc.Map {
 		m = p.Map(func(v int) int { return v + c10MapOffset })
+		nodeOf[m] = &c10Node{parent: root, depth: 1}
 		for i := 0; i < sc.NDerive; i++ {
 			cs := newSub("main", m, true, "none", 0)
 			cs.initial = true
 		}
 		if sc.Map2 {
 			m2 := m.Map(func(v int) int { return v + c10MapOffset })
+			nodeOf[m2] = &c10Node{parent: nodeOf[m], depth: 2}
 			cs := newSub("main", m2, true, "none", 0)
 			cs.initial = true
 			cs.level = 2
@@ -236,7 +263,17 @@ func (sc *c10Scenario) Run(s *simrt.Sim) {
 					val++
 					v := val
 					po := h.Do(name, "Publish", v, func() (interface{}, error) { p.Publish(v); return nil, nil })
-					sc.pubs = append(sc.pubs, &c10Pub{op: po, val: v})
+					sc.pubs = append(sc.pubs, &c10Pub{op: po, val: v, node: root})
+				case "PublishMid":
+					// a value published INTO the Map-derived publisher: its own subscriptions get v, the
+					// publishers derived from it fn(v), the origin's subscriptions nothing
+					if m == nil {
+						break
+					}
+					val++
+					v := val
+					po := h.Do(name, "Publish-into-derived", v, func() (interface{}, error) { m.Publish(v); return nil, nil })
+					sc.pubs = append(sc.pubs, &c10Pub{op: po, val: v, node: nodeOf[m]})
 				case "Subscribe":
 					newSub(name, p, false, "none", 0)
 				case "Map":
@@ -246,6 +283,7 @@ func (sc *c10Scenario) Run(s *simrt.Sim) {
 						return nil, nil
 					})
 					if mk != nil {
+						nodeOf[mk] = &c10Node{parent: root, depth: 1}
 						newSub(name, mk, true, "none", 0)
 					}
 				case "Unsubscribe":
@@ -326,13 +364,10 @@ func (sc *c10Scenario) Check(res *simrt.Result) []Violation {
 			if cs.subOp == nil || !cs.subOp.Returned {
 				continue
 			}
-			want := P.val
-			if cs.derived {
-				want = P.val + c10MapOffset
-				if cs.level == 2 {
-					want += c10MapOffset
-				}
+			if cs.node == nil || P.node == nil || !cs.node.under(P.node) {
+				continue // not downstream of the publisher the value went into (invented deliveries are checked below)
 			}
+			want := P.val + (cs.node.depth-P.node.depth)*c10MapOffset
 			n := 0
 			var first c10Deliv
 			for _, d := range sc.deliv {
@@ -341,7 +376,9 @@ func (sc *c10Scenario) Check(res *simrt.Result) []Violation {
 						first = d
 					}
 					n++
-					if sc.Handler && d.thread != sc.hTID {
+					// (only the origin has the SubscribeOn handler: a value published straight into a
+					// derived publisher is delivered by the publishing thread)
+					if sc.Handler && P.node.depth == 0 && d.thread != sc.hTID {
 						add("handler-routing", "delivery-not-on-handler", fmt.Sprintf("OnNext(%d) of subscription %d ran on thread T%d, the handler is T%d", d.val, cs.id, d.thread, sc.hTID))
 					}
 				}
@@ -405,13 +442,17 @@ func (sc *c10Scenario) Check(res *simrt.Result) []Violation {
 	// invented deliveries
 	for _, d := range sc.deliv {
 		ok := false
+		var cs *c10Sub
+		if d.sub >= 0 && d.sub < len(sc.subs) {
+			cs = sc.subs[d.sub]
+		}
 		for _, P := range sc.pubs {
-			if d.val == P.val || d.val == P.val+c10MapOffset || d.val == P.val+2*c10MapOffset {
+			if cs != nil && cs.node != nil && P.node != nil && cs.node.under(P.node) && d.val == P.val+(cs.node.depth-P.node.depth)*c10MapOffset {
 				ok = true
 			}
 		}
 		if !ok {
-			add("invented", "delivery-of-unpublished-value", fmt.Sprintf("subscription %d got %d which nobody published", d.sub, d.val))
+			add("invented", "delivery-of-unpublished-value", fmt.Sprintf("subscription %d got %d, which is not fn^k(v) of any value v published into its publisher or one of that publisher's origins", d.sub, d.val))
 		}
 	}
 	return dedupe(vs)
